@@ -4,6 +4,7 @@ import (
 	"flag"
 	"fmt"
 	"os"
+	"regexp"
 	"sort"
 	"strings"
 
@@ -65,6 +66,28 @@ func (l *Loaded) findFunc(pkgPath, name string) *ssa.Function {
 	return found
 }
 
+// findFuncs resolves a name that may contain '*' wildcards to all matching functions (sorted by name).
+func (l *Loaded) findFuncs(pkgPath, pattern string) []*ssa.Function {
+	if !strings.Contains(pattern, "*") || strings.HasPrefix(pattern, "(*") && strings.Count(pattern, "*") == 1 {
+		if fn := l.findFunc(pkgPath, pattern); fn != nil {
+			return []*ssa.Function{fn}
+		}
+		return nil
+	}
+	re := regexp.MustCompile("^" + strings.ReplaceAll(regexp.QuoteMeta(pattern), `\*\*`, ".*") + "$")
+	var out []*ssa.Function
+	seen := map[string]bool{}
+	for fn := range ssautil.AllFunctions(l.prog) {
+		p, n := relName(fn)
+		if p == pkgPath && re.MatchString(n) && !seen[n] && fn.Synthetic == "" || p == pkgPath && re.MatchString(n) && !seen[n] && strings.Contains(fn.Synthetic, "instance") {
+			seen[n] = true
+			out = append(out, fn)
+		}
+	}
+	sort.Slice(out, func(i, j int) bool { return out[i].String() < out[j].String() })
+	return out
+}
+
 func main() {
 	if len(os.Args) < 2 {
 		fmt.Fprintln(os.Stderr, "usage: gocv check <property> [--tier quick|thorough] | verify <pkg> <func>... | replay <file> | selftest | baseline")
@@ -78,6 +101,21 @@ func main() {
 		os.Exit(cmdCheck(os.Args[2:]))
 	case "replay":
 		os.Exit(cmdReplay(os.Args[2:]))
+	case "list":
+		l, err := loadRepo(os.Args[2])
+		if err != nil {
+			fmt.Fprintln(os.Stderr, err)
+			os.Exit(2)
+		}
+		var names []string
+		for fn := range ssautil.AllFunctions(l.prog) {
+			p, n := relName(fn)
+			if p == l.pkgs[0].PkgPath && (len(os.Args) < 4 || strings.Contains(n, os.Args[3])) {
+				names = append(names, n)
+			}
+		}
+		sort.Strings(names)
+		fmt.Println(strings.Join(names, "\n"))
 	default:
 		fmt.Fprintln(os.Stderr, "unknown command", os.Args[1])
 		os.Exit(2)
@@ -160,7 +198,11 @@ func printFuncResult(r *FuncResult, verbose bool, dump string) {
 			}
 		}
 		if dump != "" && strings.Contains(d.Ob.Name, dump) {
-			fmt.Println(Script(d.Ob.query(), ScriptOpts{}))
+			if os.Getenv("GOCV_DUMP_LITE") != "" {
+				fmt.Println(Script(d.Ob.queryLite(), ScriptOpts{}))
+			} else {
+				fmt.Println(Script(d.Ob.query(), ScriptOpts{}))
+			}
 		}
 	}
 	for _, n := range r.Notes {
